@@ -33,6 +33,7 @@ type Env struct {
 	SolverLog   string
 	MaxViol     int
 	BigNewIntZ  bool
+	NoFold      bool
 
 	mu           sync.Mutex
 	initFailures map[string]string
